@@ -149,4 +149,50 @@ theorem e2e_convertf_shape_implies_oracle : type_of% @GM.Props.C16E2E.convertf_s
     every listed definition is referenced. -/
 theorem e2e_convertf_footnotes_consistent : type_of% @GM.Props.C16E2E.convertf_footnotes_consistent := @GM.Props.C16E2E.convertf_footnotes_consistent
 
+/-- (re-export of `GM.Props.C16E2E.shape_always_ok`) **(S) always holds** — for every byte string, Unicode class assignment and guard setting, the tree in front of the
+    transformer that the parse phases return has the AST shape: at most one FootnoteList, its children exactly the
+    definitions `0 … n−1` in list order with no Footnote / FootnoteList below them, no Footnote elsewhere, FootnoteLinks are
+    leaves that point at definitions of the list, no FootnoteBacklink yet, the root is the Document. It holds BY
+    CONSTRUCTION of the composed model: the walk over the store (`treeOfF`: modes body / definition / below a definition)
+    tags the list's children by their position, and the model's DOMAIN MONITORS (`tagIn`, `treeOfF`, `blockKindF`,
+    `inlineTreeF`, `monitorFires` — not Go code, documented in GM.Model.ConvertF) answer `pre` for the stores Go never
+    builds (a Footnote outside the list, a FootnoteList twice in the tree or below a definition, node 0 not the Document,
+    a FootnoteLink to no definition, a Footnote with lines). So C16 holds of EVERY document `convertF` converts; that the
+    monitors never fire (`MonitorsNeverFire`, stated) is a no-`pre` fact of the C01 kind: evaluated by the tie on every
+    document (an `err:` answer is a disagreement), never observed; on `[^`-free sources it is a theorem
+    (`convertf_conservative`: the outcome is `convertCore`'s). -/
+theorem e2e_shape_always_ok : type_of% @GM.Props.C16E2E.shape_always_ok := @GM.Props.C16E2E.shape_always_ok
+
+/-- (re-export of `GM.Props.C16E2E.convertf_footnotes_consistent_unconditional`) **C16 END TO END, UNCONDITIONAL.** For EVERY byte string `src` (every Unicode class assignment, id prefix, guard
+    setting): whenever the parse phases of `convertF` return, the ids / hrefs / shown numbers FootnoteHTMLRenderer writes for
+    the document `convertF` renders are those of an output that satisfies all six clauses of GM.Spec.Footnote.Consistent:
+    items numbered 1…n in listed order; every reference links to exactly one item and shows its number; every back-link
+    points to exactly one rendered reference of its own item; every reference has exactly one back-link; all ids distinct;
+    every listed definition is referenced. (`convertf_footnotes_consistent` + `shape_always_ok`.) -/
+theorem e2e_convertf_footnotes_consistent_unconditional : type_of% @GM.Props.C16E2E.convertf_footnotes_consistent_unconditional := @GM.Props.C16E2E.convertf_footnotes_consistent_unconditional
+
+/-- (re-export of `GM.Props.C16E2E.convertf_tree_always_shows_abstraction`) the Lean-defined oracle of the tie is a theorem: the tree `convertF` renders ALWAYS shows the abstraction's output -/
+theorem e2e_convertf_tree_always_shows_abstraction : type_of% @GM.Props.C16E2E.convertf_tree_always_shows_abstraction := @GM.Props.C16E2E.convertf_tree_always_shows_abstraction
+
+/-- (re-export of `GM.Props.C16E2E.convertf_store_wellformed`) **Store well-formedness of the block driver with the footnote block parser** (the `MF` copy of the driver): for every
+    source, guard setting and registration flag, whenever the block phase ends normally the node store is tree-shaped
+    (`GM.ConvertH.TreeWF`: every child edge is mirrored by the child's parent pointer, child lists are duplicate-free,
+    node 0 is the parentless Document) and the footnote context — the FootnoteList of the parse context, every `*ast.Footnote`
+    — names existing nodes other than node 0. Technique and parser-level lemmas: GM.Proof.ConvertHWF* (headingids). -/
+theorem e2e_convertf_store_wellformed : type_of% @GM.Props.C16E2E.convertf_store_wellformed := @GM.Props.C16E2E.convertf_store_wellformed
+
+/-- (re-export of `GM.Props.C16E2E.convertf_block_monitor_never_fires`) **The block-phase monitor never fires**: for every source the walk over the final store meets the FootnoteList at most
+    once and node 0 is the plain Document — the first half of `MonitorsNeverFire`, part 1. -/
+theorem e2e_convertf_block_monitor_never_fires : type_of% @GM.Props.C16E2E.convertf_block_monitor_never_fires := @GM.Props.C16E2E.convertf_block_monitor_never_fires
+
+/-- (re-export of `GM.Props.C16E2E.convertf_inline_links_resolve`) **The inline monitor never fires**: every FootnoteLink representation among the inline children the inline phase with
+    the footnote parser returns — for every block, reference list, environment — points at a definition of the list
+    (`k < refs.length`): part 2 of `MonitorsNeverFire`. The per-node property is carried through every default inline parser,
+    ProcessDelimiters (it only builds Emphasis of level 1 or 2), the link parser, the byte loop over the trigger table and
+    CloseBlock; the node `parseFootnote` answers has it by `footnote_label_resolution`. -/
+theorem e2e_convertf_inline_links_resolve : type_of% @GM.Props.C16E2E.convertf_inline_links_resolve := @GM.Props.C16E2E.convertf_inline_links_resolve
+
+/-- (re-export of `GM.Props.C16E2E.monitors_never_fire_of`) see `GM.Props.C16E2E.monitors_never_fire_of` -/
+theorem e2e_monitors_never_fire_of : type_of% @GM.Props.C16E2E.monitors_never_fire_of := @GM.Props.C16E2E.monitors_never_fire_of
+
 end GM.Props.C16
